@@ -1,5 +1,6 @@
 (* modelrun command "codegen-x86": the model of the x86-64 code generator against the real one. *)
 From Coq Require Import List ZArith NArith String Bool.
+From SCC Require Import Sem.LabelText.
 From SCC Require Import Base.Sexp Lang.AxSyn Sem.AxSem Sem.AxTrace Sem.X86Sem Sem.X86Wf Sem.LabelGuard Sem.HeapCheck Sem.X86Heap Model.Backend Model.X86 Model.X86Io Model.RunBase.
 Import ListNotations.
 Open Scope string_scope.
@@ -247,6 +248,9 @@ Definition wf_x86_case (i r : sexp) : verdict :=
   | L [Q _; p; lc; _], L [cs; _] =>
       match g_xcodes cs with
       | Some cs =>
+          match bad_label (defined_labels cs ++ flat_map referenced cs) with
+          | Some l => VViol ("class=asm-ill-formed label is not an identifier: " ++ l)
+          | None =>
           match asm_wf cs with
           | Some why =>
               (* known finding: <Type>_<k>[_<Xtor>] is ambiguous when type AND xtor names carry `_<digits>` *)
@@ -261,6 +265,7 @@ Definition wf_x86_case (i r : sexp) : verdict :=
               VOk ("nt labels" ++ n_to_string (N.log2 (N.of_nat nlab + 1)) ++ (if big then " imm64" else "")
                    ++ (if existsb (fun c => match c with JMPLN _ => true | _ => false end) cs then " table" else "")
                    ++ guard_tag p)
+          end
           end
       | None => VBad "rust output unreadable"
       end
